@@ -85,6 +85,9 @@ type FuncC struct {
 	Loops         map[int]*LoopC
 	Callsites     []*CallsiteC
 	NoSwallow     bool
+	// lockbalanced: every exit leaves as many sync locks held as the entry found
+	LockBalanced     bool
+	LockBalancedTags []string
 	NoSwallowTags []string
 	// cancellable: every blocking channel operation of the function is a
 	// select that also waits for cancellation (ctx.Done() or a listed field)
@@ -167,7 +170,7 @@ var specRe = regexp.MustCompile(`^spec\s+([A-Za-z_][A-Za-z0-9_]*)\s*\(([^)]*)\)\
 var lemmaRe = regexp.MustCompile(`^lemma(\[[A-Za-z0-9,]+\])?\s+([A-Za-z_][A-Za-z0-9_]*)\s*\(([^)]*)\)\s*(induct\s+([A-Za-z_][A-Za-z0-9_]*))?\s*$`)
 
 var topKeywords = []string{"wire ", "wire[", "typeinv ", "assume-typeinv ", "spec ", "axiom ", "lemma ", "lemma[", "func ", "extern ", "funcfield ", "functype ", "nopanic "}
-var subKeywords = []string{"requires", "relies", "cancellable", "ensures", "defines", "invariant", "decreases", "assert", "assume", "panics", "modifies", "pure", "loop ", "callsite ", "noswallow", "ghost ", "abstracts ", "maypanic", "before:", "after:", "uses ", "ignore ", "pattern ", "preserves ", "nullable ", "havoc ", "hint ", "exhaustive"}
+var subKeywords = []string{"requires", "relies", "cancellable", "ensures", "defines", "invariant", "decreases", "assert", "assume", "panics", "modifies", "pure", "loop ", "callsite ", "noswallow", "lockbalanced", "ghost ", "abstracts ", "maypanic", "before:", "after:", "uses ", "ignore ", "pattern ", "preserves ", "nullable ", "havoc ", "hint ", "exhaustive"}
 
 func startsWithAny(s string, ks []string) bool {
 	for _, k := range ks {
@@ -400,6 +403,12 @@ func ParseContractFile(path string) (*CFile, error) {
 			}
 			curF.NoSwallow = true
 			curF.NoSwallowTags = parseTags(strings.TrimPrefix(t, "noswallow"))
+		case t == "lockbalanced" || strings.HasPrefix(t, "lockbalanced["):
+			if curF == nil {
+				return nil, errf(l, "lockbalanced outside func")
+			}
+			curF.LockBalanced = true
+			curF.LockBalancedTags = parseTags(strings.TrimPrefix(t, "lockbalanced"))
 		case t == "cancellable" || strings.HasPrefix(t, "cancellable[") || strings.HasPrefix(t, "cancellable "):
 			if curF == nil {
 				return nil, errf(l, "cancellable outside func")
